@@ -377,6 +377,11 @@ pub(crate) mod verif_js_op {
     }
     fn plan_operand(i: usize, v: &Value) -> Option<f64> {
         let has: bool = kani::any();
+        plan_operand_has(i, v, has)
+    }
+    /// `has` concrete per harness instance keeps every Result/Option discriminant on the path concrete
+    /// (measured: symbolic discriminants make CBMC explore the recursive Value drop glue: 160 s vs 7 s).
+    fn plan_operand_has(i: usize, v: &Value, has: bool) -> Option<f64> {
         let x: f64 = kani::any();
         // a JSON value never converts to NaN-as-a-number: non-numeric is None (contract of to_number)
         kani::assume(!x.is_nan());
@@ -429,6 +434,9 @@ pub(crate) mod verif_js_op {
     ];
     fn plan_operand_coarse(i: usize, v: &Value) -> Option<f64> {
         let has: bool = kani::any();
+        plan_operand_coarse_has(i, v, has)
+    }
+    fn plan_operand_coarse_has(i: usize, v: &Value, has: bool) -> Option<f64> {
         let idx: usize = kani::any();
         kani::assume(idx < 16);
         let p = if has { Some(GRID[idx]) } else { None };
@@ -509,6 +517,545 @@ pub(crate) mod verif_js_op {
             (Some(x), Ok(v)) => assert!(*v == -x, "to_negative: not the negation"),
             (None, Err(_)) => {}
             _ => assert!(false, "to_negative: Err iff non-numeric violated"),
+        }
+    }
+
+    // =====================================================================================
+    // Folds (C10): `+`/`*` fold parseFloat conversions from 0/1; max/min fold Number conversions.
+    // Conversions by contract (planned Option<f64> per operand address).
+    // =====================================================================================
+    pub(crate) fn check_fold(n: usize, which: u8, plan: &[Option<f64>; 5], r: &Result<f64, Error>) {
+        // expected: Err iff some operand is non-numeric; else the left fold
+        let mut all = true;
+        let mut acc: f64 = match which {
+            0 => 0.0,
+            1 => 1.0,
+            2 => f64::NEG_INFINITY,
+            _ => f64::INFINITY,
+        };
+        let mut j = 0;
+        while j < n {
+            match plan[j] {
+                None => all = false,
+                Some(x) => {
+                    acc = match which {
+                        0 => acc + x,
+                        1 => acc * x,
+                        2 => if x > acc { x } else { acc },
+                        _ => if x < acc { x } else { acc },
+                    }
+                }
+            }
+            j += 1;
+        }
+        match r {
+            Ok(v) => {
+                assert!(all, "fold: a number although an operand is non-numeric");
+                if which < 2 {
+                    assert!(same_f64(*v, acc), "+ / *: not the exact left fold of IEEE-754 results from 0 / 1");
+                } else {
+                    assert!(*v == acc, "max / min: not the maximum / minimum of the converted operands");
+                }
+            }
+            Err(_) => assert!(!all, "fold: error although every operand is numeric"),
+        }
+    }
+    macro_rules! fold_harness {
+        ($name:ident, $n:expr, $which:expr, $callee:ident, $pat:expr) => {
+            #[cfg_attr(kani, kani::proof)]
+            #[cfg_attr(kani, kani::unwind(7))]
+            #[cfg_attr(kani, kani::stub(<serde_json::Value as std::clone::Clone>::clone, crate::verif_support::value_clone_shallow))]
+            #[cfg_attr(kani, kani::stub(crate::js_op::to_number, to_number_stub))]
+            #[cfg_attr(kani, kani::stub(crate::js_op::parse_float, to_number_stub))]
+            #[cfg_attr(kani, kani::stub(std::fmt::format, crate::verif_support::fmt_stub))]
+            pub(crate) fn $name() {
+                let vals = [MD::new(Value::Null), MD::new(Value::Null), MD::new(Value::Null), MD::new(Value::Null), MD::new(Value::Null)];
+                let mut plan: [Option<f64>; 5] = [None; 5];
+                let mut items: Vec<&Value> = Vec::with_capacity(5);
+                let mut i = 0;
+                while i < $n {
+                    // max/min only compare: operands are arbitrary doubles; +/* recompute: grid operands (see GRID)
+                    let has = ($pat >> i) & 1 == 1;
+                    plan[i] = if $which >= 2 { plan_operand_has(i, &vals[i], has) } else { plan_operand_coarse_has(i, &vals[i], has) };
+                    items.push(&*vals[i]);
+                    i += 1;
+                }
+                let items = MD::new(items);
+                let r = MD::new($callee(&items));
+                kani::cover!(true, "returned");
+                check_fold($n, $which, &plan, &r);
+            }
+        };
+    }
+//@GENERATED-FOLDS
+    //@ob name=C10.fold.add.0.empty harness=k_c10_fold_add_0_empty props=C10,C01 tier=quick strength=bounded bound="0 operands (numeric/non-numeric pattern empty); operand conversions: a 16-value grid of concrete doubles per operand" fns=js_op::parse_float_add stubs=4 timeout=400 cutdrop=1
+    //@ desc="+ folds parseFloat conversions from 0 over 0 operands: Err iff some operand is non-numeric, else exactly the left fold; conversions by contract"
+    fold_harness!(k_c10_fold_add_0_empty, 0, 0, parse_float_add, 0);
+    //@ob name=C10.fold.add.1.x harness=k_c10_fold_add_1_x props=C10,C01 tier=thorough strength=bounded bound="1 operands (numeric/non-numeric pattern x); operand conversions: a 16-value grid of concrete doubles per operand" fns=js_op::parse_float_add stubs=4 timeout=400 cutdrop=1
+    //@ desc="+ folds parseFloat conversions from 0 over 1 operands: Err iff some operand is non-numeric, else exactly the left fold; conversions by contract"
+    fold_harness!(k_c10_fold_add_1_x, 1, 0, parse_float_add, 0);
+    //@ob name=C10.fold.add.1.N harness=k_c10_fold_add_1_N props=C10,C01 tier=quick strength=bounded bound="1 operands (numeric/non-numeric pattern N); operand conversions: a 16-value grid of concrete doubles per operand" fns=js_op::parse_float_add stubs=4 timeout=400 cutdrop=1
+    //@ desc="+ folds parseFloat conversions from 0 over 1 operands: Err iff some operand is non-numeric, else exactly the left fold; conversions by contract"
+    fold_harness!(k_c10_fold_add_1_N, 1, 0, parse_float_add, 1);
+    //@ob name=C10.fold.add.2.xx harness=k_c10_fold_add_2_xx props=C10,C01 tier=thorough strength=bounded bound="2 operands (numeric/non-numeric pattern xx); operand conversions: a 16-value grid of concrete doubles per operand" fns=js_op::parse_float_add stubs=4 timeout=400 cutdrop=1
+    //@ desc="+ folds parseFloat conversions from 0 over 2 operands: Err iff some operand is non-numeric, else exactly the left fold; conversions by contract"
+    fold_harness!(k_c10_fold_add_2_xx, 2, 0, parse_float_add, 0);
+    //@ob name=C10.fold.add.2.Nx harness=k_c10_fold_add_2_Nx props=C10,C01 tier=thorough strength=bounded bound="2 operands (numeric/non-numeric pattern Nx); operand conversions: a 16-value grid of concrete doubles per operand" fns=js_op::parse_float_add stubs=4 timeout=400 cutdrop=1
+    //@ desc="+ folds parseFloat conversions from 0 over 2 operands: Err iff some operand is non-numeric, else exactly the left fold; conversions by contract"
+    fold_harness!(k_c10_fold_add_2_Nx, 2, 0, parse_float_add, 1);
+    //@ob name=C10.fold.add.2.xN harness=k_c10_fold_add_2_xN props=C10,C01 tier=thorough strength=bounded bound="2 operands (numeric/non-numeric pattern xN); operand conversions: a 16-value grid of concrete doubles per operand" fns=js_op::parse_float_add stubs=4 timeout=400 cutdrop=1
+    //@ desc="+ folds parseFloat conversions from 0 over 2 operands: Err iff some operand is non-numeric, else exactly the left fold; conversions by contract"
+    fold_harness!(k_c10_fold_add_2_xN, 2, 0, parse_float_add, 2);
+    //@ob name=C10.fold.add.2.NN harness=k_c10_fold_add_2_NN props=C10,C01 tier=quick strength=bounded bound="2 operands (numeric/non-numeric pattern NN); operand conversions: a 16-value grid of concrete doubles per operand" fns=js_op::parse_float_add stubs=4 timeout=400 cutdrop=1
+    //@ desc="+ folds parseFloat conversions from 0 over 2 operands: Err iff some operand is non-numeric, else exactly the left fold; conversions by contract"
+    fold_harness!(k_c10_fold_add_2_NN, 2, 0, parse_float_add, 3);
+    //@ob name=C10.fold.add.3.xxx harness=k_c10_fold_add_3_xxx props=C10,C01 tier=thorough strength=bounded bound="3 operands (numeric/non-numeric pattern xxx); operand conversions: a 16-value grid of concrete doubles per operand" fns=js_op::parse_float_add stubs=4 timeout=400 cutdrop=1
+    //@ desc="+ folds parseFloat conversions from 0 over 3 operands: Err iff some operand is non-numeric, else exactly the left fold; conversions by contract"
+    fold_harness!(k_c10_fold_add_3_xxx, 3, 0, parse_float_add, 0);
+    //@ob name=C10.fold.add.3.Nxx harness=k_c10_fold_add_3_Nxx props=C10,C01 tier=thorough strength=bounded bound="3 operands (numeric/non-numeric pattern Nxx); operand conversions: a 16-value grid of concrete doubles per operand" fns=js_op::parse_float_add stubs=4 timeout=400 cutdrop=1
+    //@ desc="+ folds parseFloat conversions from 0 over 3 operands: Err iff some operand is non-numeric, else exactly the left fold; conversions by contract"
+    fold_harness!(k_c10_fold_add_3_Nxx, 3, 0, parse_float_add, 1);
+    //@ob name=C10.fold.add.3.xNx harness=k_c10_fold_add_3_xNx props=C10,C01 tier=thorough strength=bounded bound="3 operands (numeric/non-numeric pattern xNx); operand conversions: a 16-value grid of concrete doubles per operand" fns=js_op::parse_float_add stubs=4 timeout=400 cutdrop=1
+    //@ desc="+ folds parseFloat conversions from 0 over 3 operands: Err iff some operand is non-numeric, else exactly the left fold; conversions by contract"
+    fold_harness!(k_c10_fold_add_3_xNx, 3, 0, parse_float_add, 2);
+    //@ob name=C10.fold.add.3.NNx harness=k_c10_fold_add_3_NNx props=C10,C01 tier=thorough strength=bounded bound="3 operands (numeric/non-numeric pattern NNx); operand conversions: a 16-value grid of concrete doubles per operand" fns=js_op::parse_float_add stubs=4 timeout=400 cutdrop=1
+    //@ desc="+ folds parseFloat conversions from 0 over 3 operands: Err iff some operand is non-numeric, else exactly the left fold; conversions by contract"
+    fold_harness!(k_c10_fold_add_3_NNx, 3, 0, parse_float_add, 3);
+    //@ob name=C10.fold.add.3.xxN harness=k_c10_fold_add_3_xxN props=C10,C01 tier=thorough strength=bounded bound="3 operands (numeric/non-numeric pattern xxN); operand conversions: a 16-value grid of concrete doubles per operand" fns=js_op::parse_float_add stubs=4 timeout=400 cutdrop=1
+    //@ desc="+ folds parseFloat conversions from 0 over 3 operands: Err iff some operand is non-numeric, else exactly the left fold; conversions by contract"
+    fold_harness!(k_c10_fold_add_3_xxN, 3, 0, parse_float_add, 4);
+    //@ob name=C10.fold.add.3.NxN harness=k_c10_fold_add_3_NxN props=C10,C01 tier=thorough strength=bounded bound="3 operands (numeric/non-numeric pattern NxN); operand conversions: a 16-value grid of concrete doubles per operand" fns=js_op::parse_float_add stubs=4 timeout=400 cutdrop=1
+    //@ desc="+ folds parseFloat conversions from 0 over 3 operands: Err iff some operand is non-numeric, else exactly the left fold; conversions by contract"
+    fold_harness!(k_c10_fold_add_3_NxN, 3, 0, parse_float_add, 5);
+    //@ob name=C10.fold.add.3.xNN harness=k_c10_fold_add_3_xNN props=C10,C01 tier=thorough strength=bounded bound="3 operands (numeric/non-numeric pattern xNN); operand conversions: a 16-value grid of concrete doubles per operand" fns=js_op::parse_float_add stubs=4 timeout=400 cutdrop=1
+    //@ desc="+ folds parseFloat conversions from 0 over 3 operands: Err iff some operand is non-numeric, else exactly the left fold; conversions by contract"
+    fold_harness!(k_c10_fold_add_3_xNN, 3, 0, parse_float_add, 6);
+    //@ob name=C10.fold.add.3.NNN harness=k_c10_fold_add_3_NNN props=C10,C01 tier=thorough strength=bounded bound="3 operands (numeric/non-numeric pattern NNN); operand conversions: a 16-value grid of concrete doubles per operand" fns=js_op::parse_float_add stubs=4 timeout=400 cutdrop=1
+    //@ desc="+ folds parseFloat conversions from 0 over 3 operands: Err iff some operand is non-numeric, else exactly the left fold; conversions by contract"
+    fold_harness!(k_c10_fold_add_3_NNN, 3, 0, parse_float_add, 7);
+    //@ob name=C10.fold.add.4.xxxx harness=k_c10_fold_add_4_xxxx props=C10,C01 tier=thorough strength=bounded bound="4 operands (numeric/non-numeric pattern xxxx); operand conversions: a 16-value grid of concrete doubles per operand" fns=js_op::parse_float_add stubs=4 timeout=400 cutdrop=1
+    //@ desc="+ folds parseFloat conversions from 0 over 4 operands: Err iff some operand is non-numeric, else exactly the left fold; conversions by contract"
+    fold_harness!(k_c10_fold_add_4_xxxx, 4, 0, parse_float_add, 0);
+    //@ob name=C10.fold.add.4.Nxxx harness=k_c10_fold_add_4_Nxxx props=C10,C01 tier=thorough strength=bounded bound="4 operands (numeric/non-numeric pattern Nxxx); operand conversions: a 16-value grid of concrete doubles per operand" fns=js_op::parse_float_add stubs=4 timeout=400 cutdrop=1
+    //@ desc="+ folds parseFloat conversions from 0 over 4 operands: Err iff some operand is non-numeric, else exactly the left fold; conversions by contract"
+    fold_harness!(k_c10_fold_add_4_Nxxx, 4, 0, parse_float_add, 1);
+    //@ob name=C10.fold.add.4.xNxx harness=k_c10_fold_add_4_xNxx props=C10,C01 tier=thorough strength=bounded bound="4 operands (numeric/non-numeric pattern xNxx); operand conversions: a 16-value grid of concrete doubles per operand" fns=js_op::parse_float_add stubs=4 timeout=400 cutdrop=1
+    //@ desc="+ folds parseFloat conversions from 0 over 4 operands: Err iff some operand is non-numeric, else exactly the left fold; conversions by contract"
+    fold_harness!(k_c10_fold_add_4_xNxx, 4, 0, parse_float_add, 2);
+    //@ob name=C10.fold.add.4.NNxx harness=k_c10_fold_add_4_NNxx props=C10,C01 tier=thorough strength=bounded bound="4 operands (numeric/non-numeric pattern NNxx); operand conversions: a 16-value grid of concrete doubles per operand" fns=js_op::parse_float_add stubs=4 timeout=400 cutdrop=1
+    //@ desc="+ folds parseFloat conversions from 0 over 4 operands: Err iff some operand is non-numeric, else exactly the left fold; conversions by contract"
+    fold_harness!(k_c10_fold_add_4_NNxx, 4, 0, parse_float_add, 3);
+    //@ob name=C10.fold.add.4.xxNx harness=k_c10_fold_add_4_xxNx props=C10,C01 tier=thorough strength=bounded bound="4 operands (numeric/non-numeric pattern xxNx); operand conversions: a 16-value grid of concrete doubles per operand" fns=js_op::parse_float_add stubs=4 timeout=400 cutdrop=1
+    //@ desc="+ folds parseFloat conversions from 0 over 4 operands: Err iff some operand is non-numeric, else exactly the left fold; conversions by contract"
+    fold_harness!(k_c10_fold_add_4_xxNx, 4, 0, parse_float_add, 4);
+    //@ob name=C10.fold.add.4.NxNx harness=k_c10_fold_add_4_NxNx props=C10,C01 tier=thorough strength=bounded bound="4 operands (numeric/non-numeric pattern NxNx); operand conversions: a 16-value grid of concrete doubles per operand" fns=js_op::parse_float_add stubs=4 timeout=400 cutdrop=1
+    //@ desc="+ folds parseFloat conversions from 0 over 4 operands: Err iff some operand is non-numeric, else exactly the left fold; conversions by contract"
+    fold_harness!(k_c10_fold_add_4_NxNx, 4, 0, parse_float_add, 5);
+    //@ob name=C10.fold.add.4.xNNx harness=k_c10_fold_add_4_xNNx props=C10,C01 tier=thorough strength=bounded bound="4 operands (numeric/non-numeric pattern xNNx); operand conversions: a 16-value grid of concrete doubles per operand" fns=js_op::parse_float_add stubs=4 timeout=400 cutdrop=1
+    //@ desc="+ folds parseFloat conversions from 0 over 4 operands: Err iff some operand is non-numeric, else exactly the left fold; conversions by contract"
+    fold_harness!(k_c10_fold_add_4_xNNx, 4, 0, parse_float_add, 6);
+    //@ob name=C10.fold.add.4.NNNx harness=k_c10_fold_add_4_NNNx props=C10,C01 tier=thorough strength=bounded bound="4 operands (numeric/non-numeric pattern NNNx); operand conversions: a 16-value grid of concrete doubles per operand" fns=js_op::parse_float_add stubs=4 timeout=400 cutdrop=1
+    //@ desc="+ folds parseFloat conversions from 0 over 4 operands: Err iff some operand is non-numeric, else exactly the left fold; conversions by contract"
+    fold_harness!(k_c10_fold_add_4_NNNx, 4, 0, parse_float_add, 7);
+    //@ob name=C10.fold.add.4.xxxN harness=k_c10_fold_add_4_xxxN props=C10,C01 tier=thorough strength=bounded bound="4 operands (numeric/non-numeric pattern xxxN); operand conversions: a 16-value grid of concrete doubles per operand" fns=js_op::parse_float_add stubs=4 timeout=400 cutdrop=1
+    //@ desc="+ folds parseFloat conversions from 0 over 4 operands: Err iff some operand is non-numeric, else exactly the left fold; conversions by contract"
+    fold_harness!(k_c10_fold_add_4_xxxN, 4, 0, parse_float_add, 8);
+    //@ob name=C10.fold.add.4.NxxN harness=k_c10_fold_add_4_NxxN props=C10,C01 tier=thorough strength=bounded bound="4 operands (numeric/non-numeric pattern NxxN); operand conversions: a 16-value grid of concrete doubles per operand" fns=js_op::parse_float_add stubs=4 timeout=400 cutdrop=1
+    //@ desc="+ folds parseFloat conversions from 0 over 4 operands: Err iff some operand is non-numeric, else exactly the left fold; conversions by contract"
+    fold_harness!(k_c10_fold_add_4_NxxN, 4, 0, parse_float_add, 9);
+    //@ob name=C10.fold.add.4.xNxN harness=k_c10_fold_add_4_xNxN props=C10,C01 tier=thorough strength=bounded bound="4 operands (numeric/non-numeric pattern xNxN); operand conversions: a 16-value grid of concrete doubles per operand" fns=js_op::parse_float_add stubs=4 timeout=400 cutdrop=1
+    //@ desc="+ folds parseFloat conversions from 0 over 4 operands: Err iff some operand is non-numeric, else exactly the left fold; conversions by contract"
+    fold_harness!(k_c10_fold_add_4_xNxN, 4, 0, parse_float_add, 10);
+    //@ob name=C10.fold.add.4.NNxN harness=k_c10_fold_add_4_NNxN props=C10,C01 tier=thorough strength=bounded bound="4 operands (numeric/non-numeric pattern NNxN); operand conversions: a 16-value grid of concrete doubles per operand" fns=js_op::parse_float_add stubs=4 timeout=400 cutdrop=1
+    //@ desc="+ folds parseFloat conversions from 0 over 4 operands: Err iff some operand is non-numeric, else exactly the left fold; conversions by contract"
+    fold_harness!(k_c10_fold_add_4_NNxN, 4, 0, parse_float_add, 11);
+    //@ob name=C10.fold.add.4.xxNN harness=k_c10_fold_add_4_xxNN props=C10,C01 tier=thorough strength=bounded bound="4 operands (numeric/non-numeric pattern xxNN); operand conversions: a 16-value grid of concrete doubles per operand" fns=js_op::parse_float_add stubs=4 timeout=400 cutdrop=1
+    //@ desc="+ folds parseFloat conversions from 0 over 4 operands: Err iff some operand is non-numeric, else exactly the left fold; conversions by contract"
+    fold_harness!(k_c10_fold_add_4_xxNN, 4, 0, parse_float_add, 12);
+    //@ob name=C10.fold.add.4.NxNN harness=k_c10_fold_add_4_NxNN props=C10,C01 tier=thorough strength=bounded bound="4 operands (numeric/non-numeric pattern NxNN); operand conversions: a 16-value grid of concrete doubles per operand" fns=js_op::parse_float_add stubs=4 timeout=400 cutdrop=1
+    //@ desc="+ folds parseFloat conversions from 0 over 4 operands: Err iff some operand is non-numeric, else exactly the left fold; conversions by contract"
+    fold_harness!(k_c10_fold_add_4_NxNN, 4, 0, parse_float_add, 13);
+    //@ob name=C10.fold.add.4.xNNN harness=k_c10_fold_add_4_xNNN props=C10,C01 tier=thorough strength=bounded bound="4 operands (numeric/non-numeric pattern xNNN); operand conversions: a 16-value grid of concrete doubles per operand" fns=js_op::parse_float_add stubs=4 timeout=400 cutdrop=1
+    //@ desc="+ folds parseFloat conversions from 0 over 4 operands: Err iff some operand is non-numeric, else exactly the left fold; conversions by contract"
+    fold_harness!(k_c10_fold_add_4_xNNN, 4, 0, parse_float_add, 14);
+    //@ob name=C10.fold.add.4.NNNN harness=k_c10_fold_add_4_NNNN props=C10,C01 tier=thorough strength=bounded bound="4 operands (numeric/non-numeric pattern NNNN); operand conversions: a 16-value grid of concrete doubles per operand" fns=js_op::parse_float_add stubs=4 timeout=400 cutdrop=1
+    //@ desc="+ folds parseFloat conversions from 0 over 4 operands: Err iff some operand is non-numeric, else exactly the left fold; conversions by contract"
+    fold_harness!(k_c10_fold_add_4_NNNN, 4, 0, parse_float_add, 15);
+    //@ob name=C10.fold.mul.0.empty harness=k_c10_fold_mul_0_empty props=C10,C01 tier=quick strength=bounded bound="0 operands (numeric/non-numeric pattern empty); operand conversions: a 16-value grid of concrete doubles per operand" fns=js_op::parse_float_mul stubs=4 timeout=400 cutdrop=1
+    //@ desc="* folds parseFloat conversions from 1 over 0 operands: Err iff some operand is non-numeric, else exactly the left fold; conversions by contract"
+    fold_harness!(k_c10_fold_mul_0_empty, 0, 1, parse_float_mul, 0);
+    //@ob name=C10.fold.mul.1.x harness=k_c10_fold_mul_1_x props=C10,C01 tier=thorough strength=bounded bound="1 operands (numeric/non-numeric pattern x); operand conversions: a 16-value grid of concrete doubles per operand" fns=js_op::parse_float_mul stubs=4 timeout=400 cutdrop=1
+    //@ desc="* folds parseFloat conversions from 1 over 1 operands: Err iff some operand is non-numeric, else exactly the left fold; conversions by contract"
+    fold_harness!(k_c10_fold_mul_1_x, 1, 1, parse_float_mul, 0);
+    //@ob name=C10.fold.mul.1.N harness=k_c10_fold_mul_1_N props=C10,C01 tier=quick strength=bounded bound="1 operands (numeric/non-numeric pattern N); operand conversions: a 16-value grid of concrete doubles per operand" fns=js_op::parse_float_mul stubs=4 timeout=400 cutdrop=1
+    //@ desc="* folds parseFloat conversions from 1 over 1 operands: Err iff some operand is non-numeric, else exactly the left fold; conversions by contract"
+    fold_harness!(k_c10_fold_mul_1_N, 1, 1, parse_float_mul, 1);
+    //@ob name=C10.fold.mul.2.xx harness=k_c10_fold_mul_2_xx props=C10,C01 tier=thorough strength=bounded bound="2 operands (numeric/non-numeric pattern xx); operand conversions: a 16-value grid of concrete doubles per operand" fns=js_op::parse_float_mul stubs=4 timeout=400 cutdrop=1
+    //@ desc="* folds parseFloat conversions from 1 over 2 operands: Err iff some operand is non-numeric, else exactly the left fold; conversions by contract"
+    fold_harness!(k_c10_fold_mul_2_xx, 2, 1, parse_float_mul, 0);
+    //@ob name=C10.fold.mul.2.Nx harness=k_c10_fold_mul_2_Nx props=C10,C01 tier=thorough strength=bounded bound="2 operands (numeric/non-numeric pattern Nx); operand conversions: a 16-value grid of concrete doubles per operand" fns=js_op::parse_float_mul stubs=4 timeout=400 cutdrop=1
+    //@ desc="* folds parseFloat conversions from 1 over 2 operands: Err iff some operand is non-numeric, else exactly the left fold; conversions by contract"
+    fold_harness!(k_c10_fold_mul_2_Nx, 2, 1, parse_float_mul, 1);
+    //@ob name=C10.fold.mul.2.xN harness=k_c10_fold_mul_2_xN props=C10,C01 tier=thorough strength=bounded bound="2 operands (numeric/non-numeric pattern xN); operand conversions: a 16-value grid of concrete doubles per operand" fns=js_op::parse_float_mul stubs=4 timeout=400 cutdrop=1
+    //@ desc="* folds parseFloat conversions from 1 over 2 operands: Err iff some operand is non-numeric, else exactly the left fold; conversions by contract"
+    fold_harness!(k_c10_fold_mul_2_xN, 2, 1, parse_float_mul, 2);
+    //@ob name=C10.fold.mul.2.NN harness=k_c10_fold_mul_2_NN props=C10,C01 tier=quick strength=bounded bound="2 operands (numeric/non-numeric pattern NN); operand conversions: a 16-value grid of concrete doubles per operand" fns=js_op::parse_float_mul stubs=4 timeout=400 cutdrop=1
+    //@ desc="* folds parseFloat conversions from 1 over 2 operands: Err iff some operand is non-numeric, else exactly the left fold; conversions by contract"
+    fold_harness!(k_c10_fold_mul_2_NN, 2, 1, parse_float_mul, 3);
+    //@ob name=C10.fold.mul.3.xxx harness=k_c10_fold_mul_3_xxx props=C10,C01 tier=thorough strength=bounded bound="3 operands (numeric/non-numeric pattern xxx); operand conversions: a 16-value grid of concrete doubles per operand" fns=js_op::parse_float_mul stubs=4 timeout=400 cutdrop=1
+    //@ desc="* folds parseFloat conversions from 1 over 3 operands: Err iff some operand is non-numeric, else exactly the left fold; conversions by contract"
+    fold_harness!(k_c10_fold_mul_3_xxx, 3, 1, parse_float_mul, 0);
+    //@ob name=C10.fold.mul.3.Nxx harness=k_c10_fold_mul_3_Nxx props=C10,C01 tier=thorough strength=bounded bound="3 operands (numeric/non-numeric pattern Nxx); operand conversions: a 16-value grid of concrete doubles per operand" fns=js_op::parse_float_mul stubs=4 timeout=400 cutdrop=1
+    //@ desc="* folds parseFloat conversions from 1 over 3 operands: Err iff some operand is non-numeric, else exactly the left fold; conversions by contract"
+    fold_harness!(k_c10_fold_mul_3_Nxx, 3, 1, parse_float_mul, 1);
+    //@ob name=C10.fold.mul.3.xNx harness=k_c10_fold_mul_3_xNx props=C10,C01 tier=thorough strength=bounded bound="3 operands (numeric/non-numeric pattern xNx); operand conversions: a 16-value grid of concrete doubles per operand" fns=js_op::parse_float_mul stubs=4 timeout=400 cutdrop=1
+    //@ desc="* folds parseFloat conversions from 1 over 3 operands: Err iff some operand is non-numeric, else exactly the left fold; conversions by contract"
+    fold_harness!(k_c10_fold_mul_3_xNx, 3, 1, parse_float_mul, 2);
+    //@ob name=C10.fold.mul.3.NNx harness=k_c10_fold_mul_3_NNx props=C10,C01 tier=thorough strength=bounded bound="3 operands (numeric/non-numeric pattern NNx); operand conversions: a 16-value grid of concrete doubles per operand" fns=js_op::parse_float_mul stubs=4 timeout=400 cutdrop=1
+    //@ desc="* folds parseFloat conversions from 1 over 3 operands: Err iff some operand is non-numeric, else exactly the left fold; conversions by contract"
+    fold_harness!(k_c10_fold_mul_3_NNx, 3, 1, parse_float_mul, 3);
+    //@ob name=C10.fold.mul.3.xxN harness=k_c10_fold_mul_3_xxN props=C10,C01 tier=thorough strength=bounded bound="3 operands (numeric/non-numeric pattern xxN); operand conversions: a 16-value grid of concrete doubles per operand" fns=js_op::parse_float_mul stubs=4 timeout=400 cutdrop=1
+    //@ desc="* folds parseFloat conversions from 1 over 3 operands: Err iff some operand is non-numeric, else exactly the left fold; conversions by contract"
+    fold_harness!(k_c10_fold_mul_3_xxN, 3, 1, parse_float_mul, 4);
+    //@ob name=C10.fold.mul.3.NxN harness=k_c10_fold_mul_3_NxN props=C10,C01 tier=thorough strength=bounded bound="3 operands (numeric/non-numeric pattern NxN); operand conversions: a 16-value grid of concrete doubles per operand" fns=js_op::parse_float_mul stubs=4 timeout=400 cutdrop=1
+    //@ desc="* folds parseFloat conversions from 1 over 3 operands: Err iff some operand is non-numeric, else exactly the left fold; conversions by contract"
+    fold_harness!(k_c10_fold_mul_3_NxN, 3, 1, parse_float_mul, 5);
+    //@ob name=C10.fold.mul.3.xNN harness=k_c10_fold_mul_3_xNN props=C10,C01 tier=thorough strength=bounded bound="3 operands (numeric/non-numeric pattern xNN); operand conversions: a 16-value grid of concrete doubles per operand" fns=js_op::parse_float_mul stubs=4 timeout=400 cutdrop=1
+    //@ desc="* folds parseFloat conversions from 1 over 3 operands: Err iff some operand is non-numeric, else exactly the left fold; conversions by contract"
+    fold_harness!(k_c10_fold_mul_3_xNN, 3, 1, parse_float_mul, 6);
+    //@ob name=C10.fold.mul.3.NNN harness=k_c10_fold_mul_3_NNN props=C10,C01 tier=thorough strength=bounded bound="3 operands (numeric/non-numeric pattern NNN); operand conversions: a 16-value grid of concrete doubles per operand" fns=js_op::parse_float_mul stubs=4 timeout=400 cutdrop=1
+    //@ desc="* folds parseFloat conversions from 1 over 3 operands: Err iff some operand is non-numeric, else exactly the left fold; conversions by contract"
+    fold_harness!(k_c10_fold_mul_3_NNN, 3, 1, parse_float_mul, 7);
+    //@ob name=C10.fold.mul.4.xxxx harness=k_c10_fold_mul_4_xxxx props=C10,C01 tier=thorough strength=bounded bound="4 operands (numeric/non-numeric pattern xxxx); operand conversions: a 16-value grid of concrete doubles per operand" fns=js_op::parse_float_mul stubs=4 timeout=400 cutdrop=1
+    //@ desc="* folds parseFloat conversions from 1 over 4 operands: Err iff some operand is non-numeric, else exactly the left fold; conversions by contract"
+    fold_harness!(k_c10_fold_mul_4_xxxx, 4, 1, parse_float_mul, 0);
+    //@ob name=C10.fold.mul.4.Nxxx harness=k_c10_fold_mul_4_Nxxx props=C10,C01 tier=thorough strength=bounded bound="4 operands (numeric/non-numeric pattern Nxxx); operand conversions: a 16-value grid of concrete doubles per operand" fns=js_op::parse_float_mul stubs=4 timeout=400 cutdrop=1
+    //@ desc="* folds parseFloat conversions from 1 over 4 operands: Err iff some operand is non-numeric, else exactly the left fold; conversions by contract"
+    fold_harness!(k_c10_fold_mul_4_Nxxx, 4, 1, parse_float_mul, 1);
+    //@ob name=C10.fold.mul.4.xNxx harness=k_c10_fold_mul_4_xNxx props=C10,C01 tier=thorough strength=bounded bound="4 operands (numeric/non-numeric pattern xNxx); operand conversions: a 16-value grid of concrete doubles per operand" fns=js_op::parse_float_mul stubs=4 timeout=400 cutdrop=1
+    //@ desc="* folds parseFloat conversions from 1 over 4 operands: Err iff some operand is non-numeric, else exactly the left fold; conversions by contract"
+    fold_harness!(k_c10_fold_mul_4_xNxx, 4, 1, parse_float_mul, 2);
+    //@ob name=C10.fold.mul.4.NNxx harness=k_c10_fold_mul_4_NNxx props=C10,C01 tier=thorough strength=bounded bound="4 operands (numeric/non-numeric pattern NNxx); operand conversions: a 16-value grid of concrete doubles per operand" fns=js_op::parse_float_mul stubs=4 timeout=400 cutdrop=1
+    //@ desc="* folds parseFloat conversions from 1 over 4 operands: Err iff some operand is non-numeric, else exactly the left fold; conversions by contract"
+    fold_harness!(k_c10_fold_mul_4_NNxx, 4, 1, parse_float_mul, 3);
+    //@ob name=C10.fold.mul.4.xxNx harness=k_c10_fold_mul_4_xxNx props=C10,C01 tier=thorough strength=bounded bound="4 operands (numeric/non-numeric pattern xxNx); operand conversions: a 16-value grid of concrete doubles per operand" fns=js_op::parse_float_mul stubs=4 timeout=400 cutdrop=1
+    //@ desc="* folds parseFloat conversions from 1 over 4 operands: Err iff some operand is non-numeric, else exactly the left fold; conversions by contract"
+    fold_harness!(k_c10_fold_mul_4_xxNx, 4, 1, parse_float_mul, 4);
+    //@ob name=C10.fold.mul.4.NxNx harness=k_c10_fold_mul_4_NxNx props=C10,C01 tier=thorough strength=bounded bound="4 operands (numeric/non-numeric pattern NxNx); operand conversions: a 16-value grid of concrete doubles per operand" fns=js_op::parse_float_mul stubs=4 timeout=400 cutdrop=1
+    //@ desc="* folds parseFloat conversions from 1 over 4 operands: Err iff some operand is non-numeric, else exactly the left fold; conversions by contract"
+    fold_harness!(k_c10_fold_mul_4_NxNx, 4, 1, parse_float_mul, 5);
+    //@ob name=C10.fold.mul.4.xNNx harness=k_c10_fold_mul_4_xNNx props=C10,C01 tier=thorough strength=bounded bound="4 operands (numeric/non-numeric pattern xNNx); operand conversions: a 16-value grid of concrete doubles per operand" fns=js_op::parse_float_mul stubs=4 timeout=400 cutdrop=1
+    //@ desc="* folds parseFloat conversions from 1 over 4 operands: Err iff some operand is non-numeric, else exactly the left fold; conversions by contract"
+    fold_harness!(k_c10_fold_mul_4_xNNx, 4, 1, parse_float_mul, 6);
+    //@ob name=C10.fold.mul.4.NNNx harness=k_c10_fold_mul_4_NNNx props=C10,C01 tier=thorough strength=bounded bound="4 operands (numeric/non-numeric pattern NNNx); operand conversions: a 16-value grid of concrete doubles per operand" fns=js_op::parse_float_mul stubs=4 timeout=400 cutdrop=1
+    //@ desc="* folds parseFloat conversions from 1 over 4 operands: Err iff some operand is non-numeric, else exactly the left fold; conversions by contract"
+    fold_harness!(k_c10_fold_mul_4_NNNx, 4, 1, parse_float_mul, 7);
+    //@ob name=C10.fold.mul.4.xxxN harness=k_c10_fold_mul_4_xxxN props=C10,C01 tier=thorough strength=bounded bound="4 operands (numeric/non-numeric pattern xxxN); operand conversions: a 16-value grid of concrete doubles per operand" fns=js_op::parse_float_mul stubs=4 timeout=400 cutdrop=1
+    //@ desc="* folds parseFloat conversions from 1 over 4 operands: Err iff some operand is non-numeric, else exactly the left fold; conversions by contract"
+    fold_harness!(k_c10_fold_mul_4_xxxN, 4, 1, parse_float_mul, 8);
+    //@ob name=C10.fold.mul.4.NxxN harness=k_c10_fold_mul_4_NxxN props=C10,C01 tier=thorough strength=bounded bound="4 operands (numeric/non-numeric pattern NxxN); operand conversions: a 16-value grid of concrete doubles per operand" fns=js_op::parse_float_mul stubs=4 timeout=400 cutdrop=1
+    //@ desc="* folds parseFloat conversions from 1 over 4 operands: Err iff some operand is non-numeric, else exactly the left fold; conversions by contract"
+    fold_harness!(k_c10_fold_mul_4_NxxN, 4, 1, parse_float_mul, 9);
+    //@ob name=C10.fold.mul.4.xNxN harness=k_c10_fold_mul_4_xNxN props=C10,C01 tier=thorough strength=bounded bound="4 operands (numeric/non-numeric pattern xNxN); operand conversions: a 16-value grid of concrete doubles per operand" fns=js_op::parse_float_mul stubs=4 timeout=400 cutdrop=1
+    //@ desc="* folds parseFloat conversions from 1 over 4 operands: Err iff some operand is non-numeric, else exactly the left fold; conversions by contract"
+    fold_harness!(k_c10_fold_mul_4_xNxN, 4, 1, parse_float_mul, 10);
+    //@ob name=C10.fold.mul.4.NNxN harness=k_c10_fold_mul_4_NNxN props=C10,C01 tier=thorough strength=bounded bound="4 operands (numeric/non-numeric pattern NNxN); operand conversions: a 16-value grid of concrete doubles per operand" fns=js_op::parse_float_mul stubs=4 timeout=400 cutdrop=1
+    //@ desc="* folds parseFloat conversions from 1 over 4 operands: Err iff some operand is non-numeric, else exactly the left fold; conversions by contract"
+    fold_harness!(k_c10_fold_mul_4_NNxN, 4, 1, parse_float_mul, 11);
+    //@ob name=C10.fold.mul.4.xxNN harness=k_c10_fold_mul_4_xxNN props=C10,C01 tier=thorough strength=bounded bound="4 operands (numeric/non-numeric pattern xxNN); operand conversions: a 16-value grid of concrete doubles per operand" fns=js_op::parse_float_mul stubs=4 timeout=400 cutdrop=1
+    //@ desc="* folds parseFloat conversions from 1 over 4 operands: Err iff some operand is non-numeric, else exactly the left fold; conversions by contract"
+    fold_harness!(k_c10_fold_mul_4_xxNN, 4, 1, parse_float_mul, 12);
+    //@ob name=C10.fold.mul.4.NxNN harness=k_c10_fold_mul_4_NxNN props=C10,C01 tier=thorough strength=bounded bound="4 operands (numeric/non-numeric pattern NxNN); operand conversions: a 16-value grid of concrete doubles per operand" fns=js_op::parse_float_mul stubs=4 timeout=400 cutdrop=1
+    //@ desc="* folds parseFloat conversions from 1 over 4 operands: Err iff some operand is non-numeric, else exactly the left fold; conversions by contract"
+    fold_harness!(k_c10_fold_mul_4_NxNN, 4, 1, parse_float_mul, 13);
+    //@ob name=C10.fold.mul.4.xNNN harness=k_c10_fold_mul_4_xNNN props=C10,C01 tier=thorough strength=bounded bound="4 operands (numeric/non-numeric pattern xNNN); operand conversions: a 16-value grid of concrete doubles per operand" fns=js_op::parse_float_mul stubs=4 timeout=400 cutdrop=1
+    //@ desc="* folds parseFloat conversions from 1 over 4 operands: Err iff some operand is non-numeric, else exactly the left fold; conversions by contract"
+    fold_harness!(k_c10_fold_mul_4_xNNN, 4, 1, parse_float_mul, 14);
+    //@ob name=C10.fold.mul.4.NNNN harness=k_c10_fold_mul_4_NNNN props=C10,C01 tier=thorough strength=bounded bound="4 operands (numeric/non-numeric pattern NNNN); operand conversions: a 16-value grid of concrete doubles per operand" fns=js_op::parse_float_mul stubs=4 timeout=400 cutdrop=1
+    //@ desc="* folds parseFloat conversions from 1 over 4 operands: Err iff some operand is non-numeric, else exactly the left fold; conversions by contract"
+    fold_harness!(k_c10_fold_mul_4_NNNN, 4, 1, parse_float_mul, 15);
+    //@ob name=C10.fold.max.1.x harness=k_c10_fold_max_1_x props=C10,C01 tier=thorough strength=bounded bound="1 operands (numeric/non-numeric pattern x); operand conversions: every double" fns=js_op::abstract_max stubs=4 timeout=400 cutdrop=1
+    //@ desc="max of Number conversions over 1 operands: Err iff some operand is non-numeric, else exactly the left fold; conversions by contract"
+    fold_harness!(k_c10_fold_max_1_x, 1, 2, abstract_max, 0);
+    //@ob name=C10.fold.max.1.N harness=k_c10_fold_max_1_N props=C10,C01 tier=quick strength=bounded bound="1 operands (numeric/non-numeric pattern N); operand conversions: every double" fns=js_op::abstract_max stubs=4 timeout=400 cutdrop=1
+    //@ desc="max of Number conversions over 1 operands: Err iff some operand is non-numeric, else exactly the left fold; conversions by contract"
+    fold_harness!(k_c10_fold_max_1_N, 1, 2, abstract_max, 1);
+    //@ob name=C10.fold.max.2.xx harness=k_c10_fold_max_2_xx props=C10,C01 tier=thorough strength=bounded bound="2 operands (numeric/non-numeric pattern xx); operand conversions: every double" fns=js_op::abstract_max stubs=4 timeout=400 cutdrop=1
+    //@ desc="max of Number conversions over 2 operands: Err iff some operand is non-numeric, else exactly the left fold; conversions by contract"
+    fold_harness!(k_c10_fold_max_2_xx, 2, 2, abstract_max, 0);
+    //@ob name=C10.fold.max.2.Nx harness=k_c10_fold_max_2_Nx props=C10,C01 tier=thorough strength=bounded bound="2 operands (numeric/non-numeric pattern Nx); operand conversions: every double" fns=js_op::abstract_max stubs=4 timeout=400 cutdrop=1
+    //@ desc="max of Number conversions over 2 operands: Err iff some operand is non-numeric, else exactly the left fold; conversions by contract"
+    fold_harness!(k_c10_fold_max_2_Nx, 2, 2, abstract_max, 1);
+    //@ob name=C10.fold.max.2.xN harness=k_c10_fold_max_2_xN props=C10,C01 tier=thorough strength=bounded bound="2 operands (numeric/non-numeric pattern xN); operand conversions: every double" fns=js_op::abstract_max stubs=4 timeout=400 cutdrop=1
+    //@ desc="max of Number conversions over 2 operands: Err iff some operand is non-numeric, else exactly the left fold; conversions by contract"
+    fold_harness!(k_c10_fold_max_2_xN, 2, 2, abstract_max, 2);
+    //@ob name=C10.fold.max.2.NN harness=k_c10_fold_max_2_NN props=C10,C01 tier=quick strength=bounded bound="2 operands (numeric/non-numeric pattern NN); operand conversions: every double" fns=js_op::abstract_max stubs=4 timeout=400 cutdrop=1
+    //@ desc="max of Number conversions over 2 operands: Err iff some operand is non-numeric, else exactly the left fold; conversions by contract"
+    fold_harness!(k_c10_fold_max_2_NN, 2, 2, abstract_max, 3);
+    //@ob name=C10.fold.max.3.xxx harness=k_c10_fold_max_3_xxx props=C10,C01 tier=thorough strength=bounded bound="3 operands (numeric/non-numeric pattern xxx); operand conversions: every double" fns=js_op::abstract_max stubs=4 timeout=400 cutdrop=1
+    //@ desc="max of Number conversions over 3 operands: Err iff some operand is non-numeric, else exactly the left fold; conversions by contract"
+    fold_harness!(k_c10_fold_max_3_xxx, 3, 2, abstract_max, 0);
+    //@ob name=C10.fold.max.3.Nxx harness=k_c10_fold_max_3_Nxx props=C10,C01 tier=thorough strength=bounded bound="3 operands (numeric/non-numeric pattern Nxx); operand conversions: every double" fns=js_op::abstract_max stubs=4 timeout=400 cutdrop=1
+    //@ desc="max of Number conversions over 3 operands: Err iff some operand is non-numeric, else exactly the left fold; conversions by contract"
+    fold_harness!(k_c10_fold_max_3_Nxx, 3, 2, abstract_max, 1);
+    //@ob name=C10.fold.max.3.xNx harness=k_c10_fold_max_3_xNx props=C10,C01 tier=thorough strength=bounded bound="3 operands (numeric/non-numeric pattern xNx); operand conversions: every double" fns=js_op::abstract_max stubs=4 timeout=400 cutdrop=1
+    //@ desc="max of Number conversions over 3 operands: Err iff some operand is non-numeric, else exactly the left fold; conversions by contract"
+    fold_harness!(k_c10_fold_max_3_xNx, 3, 2, abstract_max, 2);
+    //@ob name=C10.fold.max.3.NNx harness=k_c10_fold_max_3_NNx props=C10,C01 tier=thorough strength=bounded bound="3 operands (numeric/non-numeric pattern NNx); operand conversions: every double" fns=js_op::abstract_max stubs=4 timeout=400 cutdrop=1
+    //@ desc="max of Number conversions over 3 operands: Err iff some operand is non-numeric, else exactly the left fold; conversions by contract"
+    fold_harness!(k_c10_fold_max_3_NNx, 3, 2, abstract_max, 3);
+    //@ob name=C10.fold.max.3.xxN harness=k_c10_fold_max_3_xxN props=C10,C01 tier=thorough strength=bounded bound="3 operands (numeric/non-numeric pattern xxN); operand conversions: every double" fns=js_op::abstract_max stubs=4 timeout=400 cutdrop=1
+    //@ desc="max of Number conversions over 3 operands: Err iff some operand is non-numeric, else exactly the left fold; conversions by contract"
+    fold_harness!(k_c10_fold_max_3_xxN, 3, 2, abstract_max, 4);
+    //@ob name=C10.fold.max.3.NxN harness=k_c10_fold_max_3_NxN props=C10,C01 tier=thorough strength=bounded bound="3 operands (numeric/non-numeric pattern NxN); operand conversions: every double" fns=js_op::abstract_max stubs=4 timeout=400 cutdrop=1
+    //@ desc="max of Number conversions over 3 operands: Err iff some operand is non-numeric, else exactly the left fold; conversions by contract"
+    fold_harness!(k_c10_fold_max_3_NxN, 3, 2, abstract_max, 5);
+    //@ob name=C10.fold.max.3.xNN harness=k_c10_fold_max_3_xNN props=C10,C01 tier=thorough strength=bounded bound="3 operands (numeric/non-numeric pattern xNN); operand conversions: every double" fns=js_op::abstract_max stubs=4 timeout=400 cutdrop=1
+    //@ desc="max of Number conversions over 3 operands: Err iff some operand is non-numeric, else exactly the left fold; conversions by contract"
+    fold_harness!(k_c10_fold_max_3_xNN, 3, 2, abstract_max, 6);
+    //@ob name=C10.fold.max.3.NNN harness=k_c10_fold_max_3_NNN props=C10,C01 tier=thorough strength=bounded bound="3 operands (numeric/non-numeric pattern NNN); operand conversions: every double" fns=js_op::abstract_max stubs=4 timeout=400 cutdrop=1
+    //@ desc="max of Number conversions over 3 operands: Err iff some operand is non-numeric, else exactly the left fold; conversions by contract"
+    fold_harness!(k_c10_fold_max_3_NNN, 3, 2, abstract_max, 7);
+    //@ob name=C10.fold.max.4.xxxx harness=k_c10_fold_max_4_xxxx props=C10,C01 tier=thorough strength=bounded bound="4 operands (numeric/non-numeric pattern xxxx); operand conversions: every double" fns=js_op::abstract_max stubs=4 timeout=400 cutdrop=1
+    //@ desc="max of Number conversions over 4 operands: Err iff some operand is non-numeric, else exactly the left fold; conversions by contract"
+    fold_harness!(k_c10_fold_max_4_xxxx, 4, 2, abstract_max, 0);
+    //@ob name=C10.fold.max.4.Nxxx harness=k_c10_fold_max_4_Nxxx props=C10,C01 tier=thorough strength=bounded bound="4 operands (numeric/non-numeric pattern Nxxx); operand conversions: every double" fns=js_op::abstract_max stubs=4 timeout=400 cutdrop=1
+    //@ desc="max of Number conversions over 4 operands: Err iff some operand is non-numeric, else exactly the left fold; conversions by contract"
+    fold_harness!(k_c10_fold_max_4_Nxxx, 4, 2, abstract_max, 1);
+    //@ob name=C10.fold.max.4.xNxx harness=k_c10_fold_max_4_xNxx props=C10,C01 tier=thorough strength=bounded bound="4 operands (numeric/non-numeric pattern xNxx); operand conversions: every double" fns=js_op::abstract_max stubs=4 timeout=400 cutdrop=1
+    //@ desc="max of Number conversions over 4 operands: Err iff some operand is non-numeric, else exactly the left fold; conversions by contract"
+    fold_harness!(k_c10_fold_max_4_xNxx, 4, 2, abstract_max, 2);
+    //@ob name=C10.fold.max.4.NNxx harness=k_c10_fold_max_4_NNxx props=C10,C01 tier=thorough strength=bounded bound="4 operands (numeric/non-numeric pattern NNxx); operand conversions: every double" fns=js_op::abstract_max stubs=4 timeout=400 cutdrop=1
+    //@ desc="max of Number conversions over 4 operands: Err iff some operand is non-numeric, else exactly the left fold; conversions by contract"
+    fold_harness!(k_c10_fold_max_4_NNxx, 4, 2, abstract_max, 3);
+    //@ob name=C10.fold.max.4.xxNx harness=k_c10_fold_max_4_xxNx props=C10,C01 tier=thorough strength=bounded bound="4 operands (numeric/non-numeric pattern xxNx); operand conversions: every double" fns=js_op::abstract_max stubs=4 timeout=400 cutdrop=1
+    //@ desc="max of Number conversions over 4 operands: Err iff some operand is non-numeric, else exactly the left fold; conversions by contract"
+    fold_harness!(k_c10_fold_max_4_xxNx, 4, 2, abstract_max, 4);
+    //@ob name=C10.fold.max.4.NxNx harness=k_c10_fold_max_4_NxNx props=C10,C01 tier=thorough strength=bounded bound="4 operands (numeric/non-numeric pattern NxNx); operand conversions: every double" fns=js_op::abstract_max stubs=4 timeout=400 cutdrop=1
+    //@ desc="max of Number conversions over 4 operands: Err iff some operand is non-numeric, else exactly the left fold; conversions by contract"
+    fold_harness!(k_c10_fold_max_4_NxNx, 4, 2, abstract_max, 5);
+    //@ob name=C10.fold.max.4.xNNx harness=k_c10_fold_max_4_xNNx props=C10,C01 tier=thorough strength=bounded bound="4 operands (numeric/non-numeric pattern xNNx); operand conversions: every double" fns=js_op::abstract_max stubs=4 timeout=400 cutdrop=1
+    //@ desc="max of Number conversions over 4 operands: Err iff some operand is non-numeric, else exactly the left fold; conversions by contract"
+    fold_harness!(k_c10_fold_max_4_xNNx, 4, 2, abstract_max, 6);
+    //@ob name=C10.fold.max.4.NNNx harness=k_c10_fold_max_4_NNNx props=C10,C01 tier=thorough strength=bounded bound="4 operands (numeric/non-numeric pattern NNNx); operand conversions: every double" fns=js_op::abstract_max stubs=4 timeout=400 cutdrop=1
+    //@ desc="max of Number conversions over 4 operands: Err iff some operand is non-numeric, else exactly the left fold; conversions by contract"
+    fold_harness!(k_c10_fold_max_4_NNNx, 4, 2, abstract_max, 7);
+    //@ob name=C10.fold.max.4.xxxN harness=k_c10_fold_max_4_xxxN props=C10,C01 tier=thorough strength=bounded bound="4 operands (numeric/non-numeric pattern xxxN); operand conversions: every double" fns=js_op::abstract_max stubs=4 timeout=400 cutdrop=1
+    //@ desc="max of Number conversions over 4 operands: Err iff some operand is non-numeric, else exactly the left fold; conversions by contract"
+    fold_harness!(k_c10_fold_max_4_xxxN, 4, 2, abstract_max, 8);
+    //@ob name=C10.fold.max.4.NxxN harness=k_c10_fold_max_4_NxxN props=C10,C01 tier=thorough strength=bounded bound="4 operands (numeric/non-numeric pattern NxxN); operand conversions: every double" fns=js_op::abstract_max stubs=4 timeout=400 cutdrop=1
+    //@ desc="max of Number conversions over 4 operands: Err iff some operand is non-numeric, else exactly the left fold; conversions by contract"
+    fold_harness!(k_c10_fold_max_4_NxxN, 4, 2, abstract_max, 9);
+    //@ob name=C10.fold.max.4.xNxN harness=k_c10_fold_max_4_xNxN props=C10,C01 tier=thorough strength=bounded bound="4 operands (numeric/non-numeric pattern xNxN); operand conversions: every double" fns=js_op::abstract_max stubs=4 timeout=400 cutdrop=1
+    //@ desc="max of Number conversions over 4 operands: Err iff some operand is non-numeric, else exactly the left fold; conversions by contract"
+    fold_harness!(k_c10_fold_max_4_xNxN, 4, 2, abstract_max, 10);
+    //@ob name=C10.fold.max.4.NNxN harness=k_c10_fold_max_4_NNxN props=C10,C01 tier=thorough strength=bounded bound="4 operands (numeric/non-numeric pattern NNxN); operand conversions: every double" fns=js_op::abstract_max stubs=4 timeout=400 cutdrop=1
+    //@ desc="max of Number conversions over 4 operands: Err iff some operand is non-numeric, else exactly the left fold; conversions by contract"
+    fold_harness!(k_c10_fold_max_4_NNxN, 4, 2, abstract_max, 11);
+    //@ob name=C10.fold.max.4.xxNN harness=k_c10_fold_max_4_xxNN props=C10,C01 tier=thorough strength=bounded bound="4 operands (numeric/non-numeric pattern xxNN); operand conversions: every double" fns=js_op::abstract_max stubs=4 timeout=400 cutdrop=1
+    //@ desc="max of Number conversions over 4 operands: Err iff some operand is non-numeric, else exactly the left fold; conversions by contract"
+    fold_harness!(k_c10_fold_max_4_xxNN, 4, 2, abstract_max, 12);
+    //@ob name=C10.fold.max.4.NxNN harness=k_c10_fold_max_4_NxNN props=C10,C01 tier=thorough strength=bounded bound="4 operands (numeric/non-numeric pattern NxNN); operand conversions: every double" fns=js_op::abstract_max stubs=4 timeout=400 cutdrop=1
+    //@ desc="max of Number conversions over 4 operands: Err iff some operand is non-numeric, else exactly the left fold; conversions by contract"
+    fold_harness!(k_c10_fold_max_4_NxNN, 4, 2, abstract_max, 13);
+    //@ob name=C10.fold.max.4.xNNN harness=k_c10_fold_max_4_xNNN props=C10,C01 tier=thorough strength=bounded bound="4 operands (numeric/non-numeric pattern xNNN); operand conversions: every double" fns=js_op::abstract_max stubs=4 timeout=400 cutdrop=1
+    //@ desc="max of Number conversions over 4 operands: Err iff some operand is non-numeric, else exactly the left fold; conversions by contract"
+    fold_harness!(k_c10_fold_max_4_xNNN, 4, 2, abstract_max, 14);
+    //@ob name=C10.fold.max.4.NNNN harness=k_c10_fold_max_4_NNNN props=C10,C01 tier=thorough strength=bounded bound="4 operands (numeric/non-numeric pattern NNNN); operand conversions: every double" fns=js_op::abstract_max stubs=4 timeout=400 cutdrop=1
+    //@ desc="max of Number conversions over 4 operands: Err iff some operand is non-numeric, else exactly the left fold; conversions by contract"
+    fold_harness!(k_c10_fold_max_4_NNNN, 4, 2, abstract_max, 15);
+    //@ob name=C10.fold.min.1.x harness=k_c10_fold_min_1_x props=C10,C01 tier=thorough strength=bounded bound="1 operands (numeric/non-numeric pattern x); operand conversions: every double" fns=js_op::abstract_min stubs=4 timeout=400 cutdrop=1
+    //@ desc="min of Number conversions over 1 operands: Err iff some operand is non-numeric, else exactly the left fold; conversions by contract"
+    fold_harness!(k_c10_fold_min_1_x, 1, 3, abstract_min, 0);
+    //@ob name=C10.fold.min.1.N harness=k_c10_fold_min_1_N props=C10,C01 tier=quick strength=bounded bound="1 operands (numeric/non-numeric pattern N); operand conversions: every double" fns=js_op::abstract_min stubs=4 timeout=400 cutdrop=1
+    //@ desc="min of Number conversions over 1 operands: Err iff some operand is non-numeric, else exactly the left fold; conversions by contract"
+    fold_harness!(k_c10_fold_min_1_N, 1, 3, abstract_min, 1);
+    //@ob name=C10.fold.min.2.xx harness=k_c10_fold_min_2_xx props=C10,C01 tier=thorough strength=bounded bound="2 operands (numeric/non-numeric pattern xx); operand conversions: every double" fns=js_op::abstract_min stubs=4 timeout=400 cutdrop=1
+    //@ desc="min of Number conversions over 2 operands: Err iff some operand is non-numeric, else exactly the left fold; conversions by contract"
+    fold_harness!(k_c10_fold_min_2_xx, 2, 3, abstract_min, 0);
+    //@ob name=C10.fold.min.2.Nx harness=k_c10_fold_min_2_Nx props=C10,C01 tier=thorough strength=bounded bound="2 operands (numeric/non-numeric pattern Nx); operand conversions: every double" fns=js_op::abstract_min stubs=4 timeout=400 cutdrop=1
+    //@ desc="min of Number conversions over 2 operands: Err iff some operand is non-numeric, else exactly the left fold; conversions by contract"
+    fold_harness!(k_c10_fold_min_2_Nx, 2, 3, abstract_min, 1);
+    //@ob name=C10.fold.min.2.xN harness=k_c10_fold_min_2_xN props=C10,C01 tier=thorough strength=bounded bound="2 operands (numeric/non-numeric pattern xN); operand conversions: every double" fns=js_op::abstract_min stubs=4 timeout=400 cutdrop=1
+    //@ desc="min of Number conversions over 2 operands: Err iff some operand is non-numeric, else exactly the left fold; conversions by contract"
+    fold_harness!(k_c10_fold_min_2_xN, 2, 3, abstract_min, 2);
+    //@ob name=C10.fold.min.2.NN harness=k_c10_fold_min_2_NN props=C10,C01 tier=quick strength=bounded bound="2 operands (numeric/non-numeric pattern NN); operand conversions: every double" fns=js_op::abstract_min stubs=4 timeout=400 cutdrop=1
+    //@ desc="min of Number conversions over 2 operands: Err iff some operand is non-numeric, else exactly the left fold; conversions by contract"
+    fold_harness!(k_c10_fold_min_2_NN, 2, 3, abstract_min, 3);
+    //@ob name=C10.fold.min.3.xxx harness=k_c10_fold_min_3_xxx props=C10,C01 tier=thorough strength=bounded bound="3 operands (numeric/non-numeric pattern xxx); operand conversions: every double" fns=js_op::abstract_min stubs=4 timeout=400 cutdrop=1
+    //@ desc="min of Number conversions over 3 operands: Err iff some operand is non-numeric, else exactly the left fold; conversions by contract"
+    fold_harness!(k_c10_fold_min_3_xxx, 3, 3, abstract_min, 0);
+    //@ob name=C10.fold.min.3.Nxx harness=k_c10_fold_min_3_Nxx props=C10,C01 tier=thorough strength=bounded bound="3 operands (numeric/non-numeric pattern Nxx); operand conversions: every double" fns=js_op::abstract_min stubs=4 timeout=400 cutdrop=1
+    //@ desc="min of Number conversions over 3 operands: Err iff some operand is non-numeric, else exactly the left fold; conversions by contract"
+    fold_harness!(k_c10_fold_min_3_Nxx, 3, 3, abstract_min, 1);
+    //@ob name=C10.fold.min.3.xNx harness=k_c10_fold_min_3_xNx props=C10,C01 tier=thorough strength=bounded bound="3 operands (numeric/non-numeric pattern xNx); operand conversions: every double" fns=js_op::abstract_min stubs=4 timeout=400 cutdrop=1
+    //@ desc="min of Number conversions over 3 operands: Err iff some operand is non-numeric, else exactly the left fold; conversions by contract"
+    fold_harness!(k_c10_fold_min_3_xNx, 3, 3, abstract_min, 2);
+    //@ob name=C10.fold.min.3.NNx harness=k_c10_fold_min_3_NNx props=C10,C01 tier=thorough strength=bounded bound="3 operands (numeric/non-numeric pattern NNx); operand conversions: every double" fns=js_op::abstract_min stubs=4 timeout=400 cutdrop=1
+    //@ desc="min of Number conversions over 3 operands: Err iff some operand is non-numeric, else exactly the left fold; conversions by contract"
+    fold_harness!(k_c10_fold_min_3_NNx, 3, 3, abstract_min, 3);
+    //@ob name=C10.fold.min.3.xxN harness=k_c10_fold_min_3_xxN props=C10,C01 tier=thorough strength=bounded bound="3 operands (numeric/non-numeric pattern xxN); operand conversions: every double" fns=js_op::abstract_min stubs=4 timeout=400 cutdrop=1
+    //@ desc="min of Number conversions over 3 operands: Err iff some operand is non-numeric, else exactly the left fold; conversions by contract"
+    fold_harness!(k_c10_fold_min_3_xxN, 3, 3, abstract_min, 4);
+    //@ob name=C10.fold.min.3.NxN harness=k_c10_fold_min_3_NxN props=C10,C01 tier=thorough strength=bounded bound="3 operands (numeric/non-numeric pattern NxN); operand conversions: every double" fns=js_op::abstract_min stubs=4 timeout=400 cutdrop=1
+    //@ desc="min of Number conversions over 3 operands: Err iff some operand is non-numeric, else exactly the left fold; conversions by contract"
+    fold_harness!(k_c10_fold_min_3_NxN, 3, 3, abstract_min, 5);
+    //@ob name=C10.fold.min.3.xNN harness=k_c10_fold_min_3_xNN props=C10,C01 tier=thorough strength=bounded bound="3 operands (numeric/non-numeric pattern xNN); operand conversions: every double" fns=js_op::abstract_min stubs=4 timeout=400 cutdrop=1
+    //@ desc="min of Number conversions over 3 operands: Err iff some operand is non-numeric, else exactly the left fold; conversions by contract"
+    fold_harness!(k_c10_fold_min_3_xNN, 3, 3, abstract_min, 6);
+    //@ob name=C10.fold.min.3.NNN harness=k_c10_fold_min_3_NNN props=C10,C01 tier=thorough strength=bounded bound="3 operands (numeric/non-numeric pattern NNN); operand conversions: every double" fns=js_op::abstract_min stubs=4 timeout=400 cutdrop=1
+    //@ desc="min of Number conversions over 3 operands: Err iff some operand is non-numeric, else exactly the left fold; conversions by contract"
+    fold_harness!(k_c10_fold_min_3_NNN, 3, 3, abstract_min, 7);
+    //@ob name=C10.fold.min.4.xxxx harness=k_c10_fold_min_4_xxxx props=C10,C01 tier=thorough strength=bounded bound="4 operands (numeric/non-numeric pattern xxxx); operand conversions: every double" fns=js_op::abstract_min stubs=4 timeout=400 cutdrop=1
+    //@ desc="min of Number conversions over 4 operands: Err iff some operand is non-numeric, else exactly the left fold; conversions by contract"
+    fold_harness!(k_c10_fold_min_4_xxxx, 4, 3, abstract_min, 0);
+    //@ob name=C10.fold.min.4.Nxxx harness=k_c10_fold_min_4_Nxxx props=C10,C01 tier=thorough strength=bounded bound="4 operands (numeric/non-numeric pattern Nxxx); operand conversions: every double" fns=js_op::abstract_min stubs=4 timeout=400 cutdrop=1
+    //@ desc="min of Number conversions over 4 operands: Err iff some operand is non-numeric, else exactly the left fold; conversions by contract"
+    fold_harness!(k_c10_fold_min_4_Nxxx, 4, 3, abstract_min, 1);
+    //@ob name=C10.fold.min.4.xNxx harness=k_c10_fold_min_4_xNxx props=C10,C01 tier=thorough strength=bounded bound="4 operands (numeric/non-numeric pattern xNxx); operand conversions: every double" fns=js_op::abstract_min stubs=4 timeout=400 cutdrop=1
+    //@ desc="min of Number conversions over 4 operands: Err iff some operand is non-numeric, else exactly the left fold; conversions by contract"
+    fold_harness!(k_c10_fold_min_4_xNxx, 4, 3, abstract_min, 2);
+    //@ob name=C10.fold.min.4.NNxx harness=k_c10_fold_min_4_NNxx props=C10,C01 tier=thorough strength=bounded bound="4 operands (numeric/non-numeric pattern NNxx); operand conversions: every double" fns=js_op::abstract_min stubs=4 timeout=400 cutdrop=1
+    //@ desc="min of Number conversions over 4 operands: Err iff some operand is non-numeric, else exactly the left fold; conversions by contract"
+    fold_harness!(k_c10_fold_min_4_NNxx, 4, 3, abstract_min, 3);
+    //@ob name=C10.fold.min.4.xxNx harness=k_c10_fold_min_4_xxNx props=C10,C01 tier=thorough strength=bounded bound="4 operands (numeric/non-numeric pattern xxNx); operand conversions: every double" fns=js_op::abstract_min stubs=4 timeout=400 cutdrop=1
+    //@ desc="min of Number conversions over 4 operands: Err iff some operand is non-numeric, else exactly the left fold; conversions by contract"
+    fold_harness!(k_c10_fold_min_4_xxNx, 4, 3, abstract_min, 4);
+    //@ob name=C10.fold.min.4.NxNx harness=k_c10_fold_min_4_NxNx props=C10,C01 tier=thorough strength=bounded bound="4 operands (numeric/non-numeric pattern NxNx); operand conversions: every double" fns=js_op::abstract_min stubs=4 timeout=400 cutdrop=1
+    //@ desc="min of Number conversions over 4 operands: Err iff some operand is non-numeric, else exactly the left fold; conversions by contract"
+    fold_harness!(k_c10_fold_min_4_NxNx, 4, 3, abstract_min, 5);
+    //@ob name=C10.fold.min.4.xNNx harness=k_c10_fold_min_4_xNNx props=C10,C01 tier=thorough strength=bounded bound="4 operands (numeric/non-numeric pattern xNNx); operand conversions: every double" fns=js_op::abstract_min stubs=4 timeout=400 cutdrop=1
+    //@ desc="min of Number conversions over 4 operands: Err iff some operand is non-numeric, else exactly the left fold; conversions by contract"
+    fold_harness!(k_c10_fold_min_4_xNNx, 4, 3, abstract_min, 6);
+    //@ob name=C10.fold.min.4.NNNx harness=k_c10_fold_min_4_NNNx props=C10,C01 tier=thorough strength=bounded bound="4 operands (numeric/non-numeric pattern NNNx); operand conversions: every double" fns=js_op::abstract_min stubs=4 timeout=400 cutdrop=1
+    //@ desc="min of Number conversions over 4 operands: Err iff some operand is non-numeric, else exactly the left fold; conversions by contract"
+    fold_harness!(k_c10_fold_min_4_NNNx, 4, 3, abstract_min, 7);
+    //@ob name=C10.fold.min.4.xxxN harness=k_c10_fold_min_4_xxxN props=C10,C01 tier=thorough strength=bounded bound="4 operands (numeric/non-numeric pattern xxxN); operand conversions: every double" fns=js_op::abstract_min stubs=4 timeout=400 cutdrop=1
+    //@ desc="min of Number conversions over 4 operands: Err iff some operand is non-numeric, else exactly the left fold; conversions by contract"
+    fold_harness!(k_c10_fold_min_4_xxxN, 4, 3, abstract_min, 8);
+    //@ob name=C10.fold.min.4.NxxN harness=k_c10_fold_min_4_NxxN props=C10,C01 tier=thorough strength=bounded bound="4 operands (numeric/non-numeric pattern NxxN); operand conversions: every double" fns=js_op::abstract_min stubs=4 timeout=400 cutdrop=1
+    //@ desc="min of Number conversions over 4 operands: Err iff some operand is non-numeric, else exactly the left fold; conversions by contract"
+    fold_harness!(k_c10_fold_min_4_NxxN, 4, 3, abstract_min, 9);
+    //@ob name=C10.fold.min.4.xNxN harness=k_c10_fold_min_4_xNxN props=C10,C01 tier=thorough strength=bounded bound="4 operands (numeric/non-numeric pattern xNxN); operand conversions: every double" fns=js_op::abstract_min stubs=4 timeout=400 cutdrop=1
+    //@ desc="min of Number conversions over 4 operands: Err iff some operand is non-numeric, else exactly the left fold; conversions by contract"
+    fold_harness!(k_c10_fold_min_4_xNxN, 4, 3, abstract_min, 10);
+    //@ob name=C10.fold.min.4.NNxN harness=k_c10_fold_min_4_NNxN props=C10,C01 tier=thorough strength=bounded bound="4 operands (numeric/non-numeric pattern NNxN); operand conversions: every double" fns=js_op::abstract_min stubs=4 timeout=400 cutdrop=1
+    //@ desc="min of Number conversions over 4 operands: Err iff some operand is non-numeric, else exactly the left fold; conversions by contract"
+    fold_harness!(k_c10_fold_min_4_NNxN, 4, 3, abstract_min, 11);
+    //@ob name=C10.fold.min.4.xxNN harness=k_c10_fold_min_4_xxNN props=C10,C01 tier=thorough strength=bounded bound="4 operands (numeric/non-numeric pattern xxNN); operand conversions: every double" fns=js_op::abstract_min stubs=4 timeout=400 cutdrop=1
+    //@ desc="min of Number conversions over 4 operands: Err iff some operand is non-numeric, else exactly the left fold; conversions by contract"
+    fold_harness!(k_c10_fold_min_4_xxNN, 4, 3, abstract_min, 12);
+    //@ob name=C10.fold.min.4.NxNN harness=k_c10_fold_min_4_NxNN props=C10,C01 tier=thorough strength=bounded bound="4 operands (numeric/non-numeric pattern NxNN); operand conversions: every double" fns=js_op::abstract_min stubs=4 timeout=400 cutdrop=1
+    //@ desc="min of Number conversions over 4 operands: Err iff some operand is non-numeric, else exactly the left fold; conversions by contract"
+    fold_harness!(k_c10_fold_min_4_NxNN, 4, 3, abstract_min, 13);
+    //@ob name=C10.fold.min.4.xNNN harness=k_c10_fold_min_4_xNNN props=C10,C01 tier=thorough strength=bounded bound="4 operands (numeric/non-numeric pattern xNNN); operand conversions: every double" fns=js_op::abstract_min stubs=4 timeout=400 cutdrop=1
+    //@ desc="min of Number conversions over 4 operands: Err iff some operand is non-numeric, else exactly the left fold; conversions by contract"
+    fold_harness!(k_c10_fold_min_4_xNNN, 4, 3, abstract_min, 14);
+    //@ob name=C10.fold.min.4.NNNN harness=k_c10_fold_min_4_NNNN props=C10,C01 tier=thorough strength=bounded bound="4 operands (numeric/non-numeric pattern NNNN); operand conversions: every double" fns=js_op::abstract_min stubs=4 timeout=400 cutdrop=1
+    //@ desc="min of Number conversions over 4 operands: Err iff some operand is non-numeric, else exactly the left fold; conversions by contract"
+    fold_harness!(k_c10_fold_min_4_NNNN, 4, 3, abstract_min, 15);
+//@END-GENERATED-FOLDS
+
+    // =====================================================================================
+    // parse_float dispatch (C10): numbers directly, strings by the prefix scanner, everything else
+    // through its string form.
+    // =====================================================================================
+    pub(crate) static mut PFS_PLAN: [Option<f64>; 8] = [None; 8];
+    /// contract stub for `parse_float_string`: planned parseFloat of a known string.
+    pub(crate) fn pfs_stub(val: &String) -> Option<f64> {
+        let idx = if val == "null" { 4 } else if val == "true" { 5 } else if val == "false" { 6 } else {
+            assert!(val.len() == 1, "parse_float_string called on an unexpected string");
+            label_idx(val.as_bytes()[0])
+        };
+        unsafe { PFS_PLAN[idx] }
+    }
+    pub(crate) fn body_parse_float(k: u8) {
+        let mut i = 0;
+        while i < 8 {
+            let has: bool = kani::any();
+            let v: f64 = kani::any();
+            unsafe { PFS_PLAN[i] = if has { Some(v) } else { None } };
+            i += 1;
+        }
+        let (a, sa) = match k {
+            // true / false are separate harnesses: keeps the string form concrete
+            6 => (MD::new(Value::Bool(true)), SV::Bool(true)),
+            7 => (MD::new(Value::Bool(false)), SV::Bool(false)),
+            _ => mk(k, 0, K_NULL),
+        };
+        register(&a, &a);
+        let r = parse_float(&a);
+        kani::cover!(true, "assertions reached");
+        let expect = match sa {
+            SV::Num(x) => Some(x),
+            SV::Str(l) | SV::Obj(l) => unsafe { PFS_PLAN[label_idx(l)] },
+            SV::Null => unsafe { PFS_PLAN[4] },
+            SV::Bool(b) => unsafe { PFS_PLAN[if b { 5 } else { 6 }] },
+        };
+        assert!(same_opt_f64(r, expect), "parse_float: number as is; string by parseFloat; anything else by parseFloat of its string form");
+    }
+    macro_rules! pf_harness {
+        ($name:ident, $k:expr) => {
+            #[cfg_attr(kani, kani::proof)]
+            #[cfg_attr(kani, kani::stub(crate::js_op::parse_float_string, pfs_stub))]
+            #[cfg_attr(kani, kani::stub(crate::js_op::to_string, to_string_stub))]
+            #[cfg_attr(kani, kani::stub(std::fmt::format, crate::verif_support::fmt_stub))]
+            pub(crate) fn $name() {
+                body_parse_float($k);
+            }
+        };
+    }
+    //@ob name=C10.parse_float.null harness=k_c10_parse_float_null props=C10,C01 strength=complete fns=js_op::parse_float stubs=3
+    //@ desc="parse_float(null) == parseFloat(\"null\") (scanner by contract)"
+    pf_harness!(k_c10_parse_float_null, K_NULL);
+    //@ob name=C10.parse_float.true harness=k_c10_parse_float_true props=C10,C01 strength=complete fns=js_op::parse_float stubs=3
+    //@ desc="parse_float(true) == parseFloat(\"true\")"
+    pf_harness!(k_c10_parse_float_true, 6);
+    //@ob name=C10.parse_float.false harness=k_c10_parse_float_false props=C10,C01 strength=complete fns=js_op::parse_float stubs=3
+    //@ desc="parse_float(false) == parseFloat(\"false\")"
+    pf_harness!(k_c10_parse_float_false, 7);
+    //@ob name=C10.parse_float.num harness=k_c10_parse_float_num props=C10,C01 strength=complete fns=js_op::parse_float stubs=3
+    //@ desc="parse_float(number) == the number as a double, every i64/u64/finite f64"
+    pf_harness!(k_c10_parse_float_num, K_NUM);
+    //@ob name=C10.parse_float.str harness=k_c10_parse_float_str props=C10,C01 strength=complete fns=js_op::parse_float stubs=3
+    //@ desc="parse_float(string) == parse_float_string(string)"
+    pf_harness!(k_c10_parse_float_str, K_STR);
+    //@ob name=C10.parse_float.arr harness=k_c10_parse_float_arr props=C10,C01 strength=complete fns=js_op::parse_float stubs=3
+    //@ desc="parse_float(array) == parse_float_string(to_string(array)) ([3] is 3)"
+    pf_harness!(k_c10_parse_float_arr, K_ARR);
+    //@ob name=C10.parse_float.obj harness=k_c10_parse_float_obj props=C10,C01 strength=complete fns=js_op::parse_float stubs=3
+    //@ desc="parse_float(object) == parse_float_string(to_string(object))"
+    pf_harness!(k_c10_parse_float_obj, K_OBJ);
+
+    // =====================================================================================
+    // abstract_plus (public helper; C01): never panics on numeric primitives.
+    // =====================================================================================
+    fn mk_numeric_prim(sel: u8) -> MD<Value> {
+        match sel {
+            0 => MD::new(Value::Null),
+            1 => MD::new(Value::Bool(kani::any())),
+            _ => MD::new(Value::Number(any_number())),
+        }
+    }
+    //@ob name=C01.abstract_plus.numeric props=C01 strength=complete fns=js_op::abstract_plus stubs=2 replay=generic
+    //@ desc="abstract_plus(a,b) for a,b in null/bool/any JSON number: returns (no unwrap on a non-finite sum, no overflow panic)"
+    #[cfg_attr(kani, kani::proof)]
+    #[cfg_attr(kani, kani::stub(crate::js_op::to_string, to_string_stub))]
+    #[cfg_attr(kani, kani::stub(std::fmt::format, crate::verif_support::fmt_stub))]
+    pub(crate) fn k_c01_abstract_plus_numeric() {
+        let sa: u8 = kani::any();
+        let sb: u8 = kani::any();
+        kani::assume(sa < 3 && sb < 3);
+        let a = mk_numeric_prim(sa);
+        let b = mk_numeric_prim(sb);
+        #[cfg(verif_replay)]
+        eprintln!("REPLAY-INPUT: abstract_plus(a, b): a = {}  b = {}", &*a, &*b);
+        let r = MD::new(abstract_plus(&a, &b));
+        kani::cover!(true, "returned");
+        match &*r {
+            Value::Number(n) => assert!(n.as_f64().map(|x| x.is_finite()).unwrap_or(false), "abstract_plus: non-finite JSON number"),
+            Value::Null => {}
+            _ => assert!(false, "abstract_plus on numeric primitives returned a non-number"),
         }
     }
 
